@@ -271,10 +271,10 @@ def snap_key(snap):
 # ---------------------------------------------------------------------------------------------
 # one sequential "process" that performs a list of definitions (used by histories and crash follow-ups)
 # ---------------------------------------------------------------------------------------------
-def seq_run(scratch, clock, segments, crash=None, bufsize=None):
+def seq_run(scratch, clock, segments, crash=None, bufsize=None, fault=None):
     """segments: list of processes; each process = (write_bytecode, [ops]); op = ('define', decl, opt) |
     ('tick',) | ('forget',). Returns (run, results) with results[proc] = list of (op index, decl, outcome)."""
-    run = fsx.Run(pkts_dir(scratch), clock, (STEM,), sequential=True, crash=crash, bufsize=bufsize)
+    run = fsx.Run(pkts_dir(scratch), clock, (STEM,), sequential=True, crash=crash, bufsize=bufsize, fault=fault)
     results = []
 
     def make_body(ops, res):
